@@ -5,6 +5,11 @@ V = os.path.dirname(os.path.dirname(os.path.abspath(__file__)))
 props = [json.loads(l) for l in open(os.path.join(V, "properties.jsonl"))]
 
 CLAIMS = {
+ "C02": dict(
+  text="Machine-checked (Lean 4 kernel) on the peephole rule table regenerated from compiler.go on this run: every one of the 16 rules replaces its window by an instruction with the same effect on locals, operand stack and heap and the same failure behaviour, for all values, stacks, heaps and callees (rule_sound over an abstract-value stack machine; the value laws it uses are proved for the C04 integer model: num_sub_untyped, num_incdec_type); the fused instruction keeps the first instruction's position (rule_pos, build_pos); after the two passes of optimize no rule fires at any position, so re-optimising an enclosing block is the identity and cannot move a jump target (opt_stable, optimize_idempotent, via facts fact_H/P1/P2/I/G/len decided on the table); no window contains a jump, short-circuit, loop, function-header or placeholder instruction (windows_avoid_control); the 16-bit operand packing round-trips (split_join). PARTIAL: 'optimized and unoptimized compilation of any program behave the same' additionally needs the compile schemes; it is covered by search: optimizer off vs on for every string literal of the repository's test files, a regression corpus and generated programs (stdout, values with dynamic types, error line). The table interpreter is tied to doOptimize by an instruction-for-instruction correspondence (1, 2, 3 passes) and each rule window is run against its fused form on the real VM.",
+  note="Trusted: Lean kernel; axioms propext, Quot.sound, Classical.choice; goatx (rule shapes; an unrecognised case is fail-closed); PrimLaws (x-k = x+(-k), Get/Set by untyped k vs Int(k), x+k keeps x's type) are assumptions about values, proved for the integer model and exercised on the real VM for typed numeric slots - they do not hold for an untyped or nil slot, which compiled code never increments; calls and heap objects are abstract (same primitive on both sides); error messages name different opcodes on the two sides (only outcome and line are compared); SmallOperands: argument/result counts below 32768.",
+  technique="Lean 4 proof (per-rule soundness over an abstract stack machine; two-pass fixpoint by suffix/window analysis with table facts by decide) + rule-table/doOptimize correspondence + fused-vs-unfused differential on the real VM + optimizer off/on search",
+  ref="7/C02"),
  "C04": dict(
   text="Machine-checked (Lean 4 kernel) for every operand value of int8/uint8/int32/uint32: the model of value.go's operator arms (tags regenerated from value.go on this run) selects the arm Go's typing prescribes and computes exactly Go's two's-complement result with the operand type kept (binop_arm, binop_typed), untyped constants adopt the typed operand's type on either side (untyped_adopts), shifts keep the left operand's type for any count type and reject negative counts (shift_typed), ++/--/op=/+k, unary - and ^ (incdec_typed, negate_typed, complement_typed), conversions and stores (convert_int, conv_inRange, assign_untyped, assign_typed), results stay in range (toZ_inRange, binop_wt), integer division by zero is an error. The model is tied to the real opAdd.../assign/convert by a correspondence that is exhaustive for the 8-bit types; native Go arithmetic through script functions in every syntactic position is the search oracle. float64 operations are delegated to the host (checked bit-for-bit by search only).",
   note="Trusted: Lean kernel; axioms propext, Quot.sound, Classical.choice; goatx (type tags, CAST list); float64 arithmetic and float<->int conversion are Go's/the CPU's (modelled with Lean Float only for the executable correspondence; nothing is proved about IEEE-754); A-f64-int: integers below 2^53 are exact in the float64 carrier; which instruction the compiler picks for each syntactic position is covered by search here and by C02's rule soundness, not by a C04 theorem; untyped constant folding beyond 2^53 and float literals next to integer operands (finding N8) are outside the theorems.",
